@@ -32,7 +32,7 @@ var R = hx.NewRecorder("C10", "cases = small PKIs (<=3 roots, <=5 intermediate c
 var cv = rsm2.Std
 
 func TestMain(m *testing.M) {
-	R.Require("cross_signed", "loop", "expired_intermediate", "pathlen_violation", "forged_sig", "nonCA_intermediate", "name_constraint_fail", "wildcard", "ip_san", "accept", "reject", "self_issued", "leaf_in_roots", "eku_reject", "critical_ext")
+	R.Require("cross_signed", "loop", "expired_intermediate", "pathlen_violation", "forged_sig", "nonCA_intermediate", "name_constraint_fail", "name_constraint_fail_mixed_forms", "wildcard", "ip_san", "accept", "reject", "self_issued", "leaf_in_roots", "eku_reject", "critical_ext")
 	hx.Main(m, R)
 }
 
@@ -54,6 +54,7 @@ type spec struct {
 	maxPath   int // -1 none
 	ku        gx.KeyUsage
 	permitted []string
+	ncMixed   int // >0: the nameConstraints extension is hand-encoded, non-critical, with an rfc822Name subtree at position ncMixed-1 among the DNS subtrees
 	ekus      []gx.ExtKeyUsage
 	unkEKU    bool
 	dns       []string
@@ -120,6 +121,27 @@ func build(t *rapid.T, p *pki) {
 			PermittedDNSDomains: s.permitted, PermittedDNSDomainsCritical: len(s.permitted) > 0, ExtKeyUsage: s.ekus, DNSNames: s.dns, IPAddresses: s.ips}
 		if s.cn != "" {
 			tpl.Subject.CommonName = s.cn
+		}
+		if s.ncMixed > 0 && len(s.permitted) > 0 {
+			// permitted subtrees of two name forms in one (non-critical) extension: the rfc822Name subtree says nothing about
+			// DNS names, the dNSName subtrees bind them exactly as they would alone
+			tpl.PermittedDNSDomains, tpl.PermittedDNSDomainsCritical = nil, false
+			var subtrees []byte
+			email := append([]byte{0x81, byte(len("mail.example.net"))}, "mail.example.net"...)
+			email = append([]byte{0x30, byte(len(email))}, email...)
+			for i, d := range s.permitted {
+				if i == (s.ncMixed-1)%(len(s.permitted)+1) {
+					subtrees = append(subtrees, email...)
+				}
+				gn := append([]byte{0x82, byte(len(d))}, d...)
+				subtrees = append(subtrees, append([]byte{0x30, byte(len(gn))}, gn...)...)
+			}
+			if (s.ncMixed-1)%(len(s.permitted)+1) == len(s.permitted) {
+				subtrees = append(subtrees, email...)
+			}
+			val := append([]byte{0xa0, byte(len(subtrees))}, subtrees...)
+			val = append([]byte{0x30, byte(len(val))}, val...)
+			tpl.ExtraExtensions = append(tpl.ExtraExtensions, pkix.Extension{Id: asn1.ObjectIdentifier{2, 5, 29, 30}, Critical: false, Value: val})
 		}
 		if s.unkEKU {
 			tpl.UnknownExtKeyUsage = []asn1.ObjectIdentifier{{1, 2, 3, 4, 5, 6}}
@@ -259,6 +281,9 @@ func drawPKI(t *rapid.T) *pki {
 		s.ku = kuGen.Draw(t, "ku")
 		s.maxPath = mplGen.Draw(t, "mpl")
 		s.permitted = ncGen.Draw(t, "nc")
+		if len(s.permitted) > 0 && rapid.IntRange(0, 2).Draw(t, "ncmixed") == 0 {
+			s.ncMixed = rapid.IntRange(1, 3).Draw(t, "ncmixedpos")
+		}
 		s.validity = valGen.Draw(t, "val")
 		if hostile {
 			switch gen.Uniform(t, "notca", 30) {
@@ -663,6 +688,12 @@ func decide(p *pki, q query) (v verdict, why string, cls []string) {
 			cls = append(cls, "nonCA_intermediate")
 		case strings.Contains(r, "name constraint"):
 			cls = append(cls, "name_constraint_fail")
+			for _, c := range p.certs {
+				if c.ncMixed > 0 && len(c.permitted) > 0 {
+					cls = append(cls, "name_constraint_fail_mixed_forms")
+					break
+				}
+			}
 		}
 	}
 	if unspec != "" {
@@ -875,7 +906,7 @@ func queryGen(p *pki) *rapid.Generator[query] {
 			}
 		}
 		q.host = rapid.SampledFrom([]string{"www.example.com", "www.example.com", "www.example.com", "www.example.com", "www.example.com", "www.example.com", "WWW.EXAMPLE.COM", "www.example.com.", "x.example.com", "a.b.example.com", "example.com", "alt.other.org", "nomatch.test", "",
-			"10.0.0.1", "[10.0.0.1]", "2001:db8::7", "[2001:db8::7]", "10.0.0.2", "leaf.example.com", "a.x.example.com", "com"}).Draw(t, "host")
+			"10.0.0.1", "[10.0.0.1]", "2001:db8::7", "[2001:db8::7]", "10.0.0.2", "leaf.example.com", "a.x.example.com", "com", "[www.example.com]", "[x.example.com]", "[www.example.com"}).Draw(t, "host")
 		q.usages = rapid.SampledFrom([][]gx.ExtKeyUsage{nil, nil, {gx.ExtKeyUsageServerAuth}, {gx.ExtKeyUsageClientAuth}, {gx.ExtKeyUsageAny}, {gx.ExtKeyUsageClientAuth, gx.ExtKeyUsageServerAuth}, {gx.ExtKeyUsageCodeSigning, gx.ExtKeyUsageEmailProtection}}).Draw(t, "usages")
 		if gen.OneIn(t, "othertime", 10) {
 			q.when = tNow.Add(time.Duration(rapid.SampledFrom([]int{-400, -366, -365, 365, 366, 400, 800, -800}).Draw(t, "days")) * 24 * time.Hour)
@@ -951,7 +982,7 @@ func TestC10_Hostname(t *testing.T) {
 		if err != nil {
 			t.Fatalf("parse: %v", err)
 		}
-		for _, h := range []string{host, "10.0.0.1", "[10.0.0.1]", "10.0.0.9"} {
+		for _, h := range []string{host, "10.0.0.1", "[10.0.0.1]", "10.0.0.9", "[" + host + "]", "[" + host, host + "]"} {
 			var got error
 			if pn := hx.Try(func() { got = c.VerifyHostname(h) }); pn != nil {
 				t.Fatalf("VerifyHostname panicked: %v", pn.Val)
